@@ -37,7 +37,7 @@ def run(ctx):
                             (cnat(s), cnat(x), cnat(y), cbool(periodic), opt(r), cnat(s), cnat(x), cnat(y), cbool(periodic), opt(b)))
             add('neighbors', '(forallb (fun b : bool => b) %s)' % clist(rows), {'call': '_right_neighbor/_bottom_neighbor', 'x': x, 'y': y, 'periodic': periodic}, key=(x, y, periodic))
             for spinless, ph in itertools.product((True, False), repeat=2):
-                if x * y * (1 if spinless else 2) > N(18, 50): continue
+                if x * y * (1 if spinless else 2) > N(18, 32): continue
                 t, U, mu, h = (float(dy(rng) or 1.0) for _ in range(4))
                 if spinless: h = 0.0
                 H = fermi_hubbard(x, y, t, U, mu, h, periodic, spinless, ph)
@@ -149,39 +149,98 @@ def run(ctx):
         zsum = {((p, 'Z'),): 1.0 for p in range(n)}
         add('richardson_gaudin', '(pauli_equiv %s %s && qcomm_zero %s %s)' % (coq_qop(q), coq_qop_terms(spec), coq_qop(q), coq_qop_terms(zsum)), {'call': 'RichardsonGaudin', 'g': g, 'n_qubits': n}, key=n)
     # ---- jellium family (float coefficients): structure, constants, equivalent constructions
-    grids = [(1, 2), (1, 3), (1, 4), (2, 2)] + ([] if ctx.quick else [(1, 5), (2, 3), (3, 2)])
-    for dim, length in grids:
+    def dual_spec(A, lengths, grid, spinless):
+        """dual-basis jellium of arXiv:1706.00023 built from the cell matrix A (cell vectors = columns) alone:
+        sum_{a,b,s} T(b-a) a+_{a s} a_{b s} + sum_{(a,s) != (b,s')} V(b-a) n_{a s} n_{b s'}, with
+        T(d) = sum_{k != 0} k^2 cos(k.r_d) / (2N), V(d) = (2 pi / Omega) sum_{k != 0} cos(k.r_d) / k^2,
+        k_v = sum_i (v_i - N_i // 2) B[:, i], B = 2 pi (A^-1)^T, k_v . r_d = 2 pi sum_i (v_i - N_i // 2) d_i / N_i"""
+        import numpy as np
+        dimn = len(lengths); Np = int(np.prod(lengths)); B = 2 * np.pi * np.linalg.inv(A).T; omega = abs(np.linalg.det(A))
+        pts = list(itertools.product(*[range(L) for L in lengths]))
+        ks = [(v, sum((v[i] - lengths[i] // 2) * B[:, i] for i in range(dimn))) for v in pts]
+        spins = [None] if spinless else [0, 1]
+        d = {}
+        for a in pts:
+            for b in pts:
+                T = V = 0.0
+                for v, k in ks:
+                    k2 = float(k.dot(k))
+                    if k2 == 0: continue
+                    ph = 2 * np.pi * sum((v[i] - lengths[i] // 2) * (b[i] - a[i]) / lengths[i] for i in range(dimn))
+                    T += k2 * np.cos(ph) / (2.0 * Np); V += (2 * np.pi / omega) * np.cos(ph) / k2
+                for sa in spins:
+                    oa, ob = grid.orbital_id(a, sa), grid.orbital_id(b, sa)
+                    d[((oa, 1), (ob, 0))] = d.get(((oa, 1), (ob, 0)), 0.0) + T
+                    for sb in spins:
+                        ob2 = grid.orbital_id(b, sb)
+                        if oa == ob2: continue
+                        t = ((oa, 1), (oa, 0), (ob2, 1), (ob2, 0)); d[t] = d.get(t, 0.0) + V
+        return d
+    import numpy as _np
+    grids = [(1, 2, 'f'), (1, 3, 'f'), (1, 4, 'm'), (2, 2, 'f'), (2, 2, 's'), (2, (3, 3), 's'), (2, (2, 3), 's')] + ([] if ctx.quick else [(1, 5, 'f'), (2, 3, 'f'), (3, 2, 'f'), (2, (3, 4), 's'), (3, 2, 's'), (2, (4, 2), 'd')])
+    for dim, length, kind in grids:
         for spinless in (True, False):
-            grid = of.Grid(dim, length, rng.choice([1.0, 2.0, 0.75]))
+            if kind == 'f': scale = rng.choice([1.0, 2.0, 0.75])
+            elif kind == 'm': scale = _np.array([[rng.choice([1.5, 2.0])]])
+            elif kind == 'd': scale = _np.diag([rng.choice([1.0, 1.5, 2.0]) for _ in range(dim)])
+            else:
+                # sheared, non-symmetric cell
+                scale = _np.diag([rng.choice([1.0, 1.25, 2.0]) for _ in range(dim)]).astype(float)
+                scale[0, 1] = rng.choice([0.5, 0.25, -0.5])
+                if dim == 3: scale[1, 2] = rng.choice([0.5, -0.25])
+            grid = of.Grid(dim, length, scale)
             nq = grid.num_points * (1 if spinless else 2)
-            if nq > N(8, 18): continue
+            if nq > N(9, 18): continue
+            lengths = list(grid.length)
+            A = scale * _np.eye(dim) if isinstance(scale, float) else scale
+            # geometry: position vectors are combinations of the COLUMNS of the cell matrix; reciprocal relation
+            geo_ok = True
+            for m in itertools.product(*[range(L) for L in lengths]):
+                r = sum(((m[i] - lengths[i] // 2) / lengths[i]) * A[:, i] for i in range(dim))
+                if not _np.allclose(grid.position_vector(m), r, atol=1e-12): geo_ok = False
+                for v in itertools.product(*[range(L) for L in lengths]):
+                    want = 2 * _np.pi * sum((v[i] - lengths[i] // 2) * (m[i] - lengths[i] // 2) / lengths[i] for i in range(dim))
+                    if abs(float(grid.momentum_vector(v).dot(grid.position_vector(m))) - want) > 1e-9: geo_ok = False
+            ctx.count('grid_geometry', 1, nontrivial_key=(dim, repr(length), kind))
+            if not geo_ok:
+                ctx.violation('C13 grid_geometry: position / momentum vectors do not satisfy r_m = sum_i (m_i - s_i)/N_i A[:, i], k_v . r_m = 2 pi sum_i (v_i - s_i)(m_i - s_i)/N_i',
+                              {'call': 'Grid.position_vector / momentum_vector', 'grid': [dim, repr(length)], 'scale': repr(A.tolist())})
+            spec = dual_spec(A, lengths, grid, spinless)
+            dualm = jellium_model(grid, spinless, False, False)
+            add('dual_basis_docstring', '(fermi_close %s %s %s)' % (EPS2, coq_fop(of.normal_ordered(dualm)), coq_fop(of.normal_ordered(mk_fermion(of, spec)))),
+                {'call': 'jellium_model(plane_wave=False) vs arXiv:1706.00023 formula from the cell matrix', 'grid': [dim, repr(length)], 'scale': repr(A.tolist()), 'spinless': spinless}, key=(dim, repr(length), kind, spinless))
             madelung = 2.8372 / grid.volume_scale() ** (1.0 / dim)
             for pw in (True, False):
                 a = jellium_model(grid, spinless, pw, True); b = jellium_model(grid, spinless, pw, False)
                 d = a - b
                 okc = (set(d.terms) <= {()} and abs(d.terms.get((), 0.0) - madelung) < 1e-9)
-                ctx.count('jellium_constant', 1, nontrivial_key=(dim, length, spinless, pw))
+                ctx.count('jellium_constant', 1, nontrivial_key=(dim, repr(length), kind, spinless, pw))
                 if not okc:
                     ctx.violation('C13 jellium_constant: include_constant changes the operator by %r instead of the Madelung constant %r once' % (d.terms, madelung),
-                                  {'call': 'jellium_model', 'grid': [dim, length], 'spinless': spinless, 'plane_wave': pw})
+                                  {'call': 'jellium_model', 'grid': [dim, repr(length)], 'kind': kind, 'spinless': spinless, 'plane_wave': pw})
                 add('jellium_structure', '(fermi_close %s %s (hc_map %s) && fcomm_zero %s %s%s)' % (EPS2, coq_fop(b), coq_fop(b), coq_fop(b), coq_fop_terms(number_op(nq)),
                     '' if spinless else ' && fcomm_zero %s %s' % (coq_fop(b), coq_fop_terms(sz_op(nq)))),
-                    {'call': 'jellium_model hermitian / conserving', 'grid': [dim, length], 'spinless': spinless, 'plane_wave': pw}, key=(dim, length, spinless, pw))
+                    {'call': 'jellium_model hermitian / conserving', 'grid': [dim, repr(length), kind], 'spinless': spinless, 'plane_wave': pw}, key=(dim, repr(length), kind, spinless, pw))
             for const in (True, False):
                 jq = jordan_wigner_dual_basis_jellium(grid, spinless, const)
                 fm = jellium_model(grid, spinless, False, const)
                 add('jw_dual_basis_jellium', '(fermi_pauli_close %s %s %s)' % (EPS2, coq_fop(fm), coq_qop(jq)),
-                    {'call': 'jordan_wigner_dual_basis_jellium vs jordan_wigner(jellium_model(plane_wave=False))', 'grid': [dim, length], 'spinless': spinless, 'include_constant': const}, key=(dim, length, spinless, const))
+                    {'call': 'jordan_wigner_dual_basis_jellium vs jordan_wigner(jellium_model(plane_wave=False))', 'grid': [dim, repr(length), kind], 'spinless': spinless, 'include_constant': const}, key=(dim, repr(length), kind, spinless, const))
             pwm = jellium_model(grid, spinless, True, False); dual = jellium_model(grid, spinless, False, False)
             ft = of.fourier_transform(pwm, grid, spinless)
+            # known finding D24: for a non-orthogonal cell with an even number of points along an axis (and not all
+            # lengths 2) the truncated momentum set is not closed under negation with equal |k|, and the library's
+            # momentum-space and position-space jellium are not Fourier pairs (nor isospectral) there
+            d24 = (kind == 's' and any(L % 2 == 0 for L in lengths) and any(L > 2 for L in lengths))
             add('fourier_pairing', '(fermi_close %s %s %s)' % (EPS2, coq_fop(of.normal_ordered(ft)), coq_fop(of.normal_ordered(dual))),
-                {'call': 'fourier_transform(jellium plane wave) vs dual basis', 'grid': [dim, length], 'spinless': spinless}, key=(dim, length, spinless))
+                {'call': 'fourier_transform(jellium plane wave) vs dual basis', 'grid': [dim, repr(length), kind], 'scale': repr(A.tolist()), 'spinless': spinless, 'finding': 'D24' if d24 else None},
+                key=(dim, repr(length), kind, spinless))
             # Grid index bijection
             for k in range(nq):
                 spin = None if spinless else k % 2
                 idx = grid.grid_indices(k, spinless)
                 if grid.orbital_id(idx, spin) != k:
-                    ctx.violation('C13 grid_indices: orbital_id(grid_indices(%d)) != %d' % (k, k), {'call': 'Grid.orbital_id/grid_indices', 'grid': [dim, length], 'spinless': spinless, 'k': k})
+                    ctx.violation('C13 grid_indices: orbital_id(grid_indices(%d)) != %d' % (k, k), {'call': 'Grid.orbital_id/grid_indices', 'grid': [dim, repr(length), kind], 'spinless': spinless, 'k': k})
             ctx.count('grid_bijection', nq)
-    res = coq_eval_bools(ctx, 'c13', IMPORTS, items, chunk=6, timeout=1500)
+    res = coq_eval_bools(ctx, 'c13', IMPORTS, items, chunk=(6 if ctx.quick else 2), timeout=1500)
     judge(ctx, res, meta, 'C13')
